@@ -2,6 +2,7 @@ CONSTANTS TraceFile = "trace.ndjson"
   R = 2
   N = 2
   Find = FALSE
+  WithUpdate = TRUE
   Relist = TRUE
   MaxRelist = 3
 SPECIFICATION TSpec
